@@ -104,16 +104,29 @@ def bench_case(c):
     from jesse.modes import backtest_mode
     sym = 'BTC-USDT'
     p0 = c['fills'][0][1]
-    b = Bench('futures', c['fee'], 1_000_000.0, c['lev'], 'isolated', prices={sym: p0})
+    balance = 1_000_000.0
+    if c.get('allin'):
+        # the position's margin is (almost) the whole wallet: the liquidation loss (margin + closing fee) exceeds what is left in it
+        notional = sum(q * p for q, p in c['fills'])
+        balance = float(f"{notional / c['lev'] * 1.003 + notional * c['fee'] * 1.2:.8g}")
+    b = Bench('futures', c['fee'], balance, c['lev'], 'isolated', prices={sym: p0})
     ctx = sess.Ctx({}, 'off')
     ctx.recorder = b.rec
     sess.install_sim_wrappers()
     vios, flags = [], set()
     try:
         side = 'buy' if c['long'] else 'sell'
-        for q, p in c['fills']:
-            b.set_price(sym, p)
-            b.order(sym, side, 'MARKET', q, p).execute()
+        from jesse.exceptions import InsufficientMargin
+        try:
+            for q, p in c['fills']:
+                b.set_price(sym, p)
+                b.order(sym, side, 'MARKET', q, p).execute()
+        except InsufficientMargin:
+            if not c.get('allin'):
+                raise
+            return [], {'all-in:entry-rejected'}
+        if c.get('allin'):
+            flags.add('all-in-position')
         pos = b.positions[sym]
         entry, qty = pos.entry_price, pos.qty
         lq = liq_price(entry, c['lev'], c['long'])
@@ -253,7 +266,8 @@ def run_shard(acc, shard, nshards, seed, tier):
         rest = draw(st.lists(st.tuples(st.sampled_from(['stop', 'stop', 'tp']), st.sampled_from([0.5, 1.0, 0.25]), st.sampled_from(['before', 'beyond'])), max_size=3))
         return dict(kind='bench', lev=draw(levs), long=long, fee=draw(st.sampled_from([0.0, 0.0004, 0.001])), fills=fills, rest=rest,
                     place=draw(st.sampled_from(['touch', 'ulp-miss', 'ulp-beyond', 'gap', 'ticks', 'ticks', 'ticks'])), k=draw(st.integers(-3, 3)),
-                    chunk=draw(st.sampled_from([1, 1, 1, 2, 3, 5])), extreme_at=draw(st.integers(0, 4)), tick=p * 1e-4)
+                    chunk=draw(st.sampled_from([1, 1, 1, 2, 3, 5])), extreme_at=draw(st.integers(0, 4)), tick=p * 1e-4,
+                    allin=draw(st.sampled_from([False, False, True])))
 
     def chk(c):
         vios, flags = bench_case(c)
